@@ -83,6 +83,14 @@ def _materialised(fn, pv, d, s, depth):
     else:
         return []
     ds = pv.reaching(op["place"]["l"], d, "term")
+    for _ in range(6):
+        # `b = move r` where r is the (inlined) helper's return place: look at the definitions of r
+        if len(ds) != 1 or -1 in ds:
+            break
+        _, cbb, cidx, cp = pv._defs[next(iter(ds))]
+        if cidx == "term" or cp["k"] != "use" or cp["op"]["k"] not in ("copy", "move") or cp["op"]["place"]["p"]:
+            break
+        ds = pv.reaching(cp["op"]["place"]["l"], cbb, cidx)
     if -1 in ds or len(ds) < 2:
         return []
     hits = []
@@ -118,19 +126,58 @@ def outcomes(fn, pv):
         for si, s in enumerate(b["stmts"]):
             if s["k"] == "assign" and s["dst"]["l"] == 0 and not s["dst"]["p"]:
                 t = pv.rvalue_term(s["rv"], bi, si)
-                out.append(_classify(t, bi, si, fn, pv))
+                o = _classify(t, bi, si, fn, pv)
+                out.extend(_expand_combinators(o, fn, pv) or [o])
         t = b["term"]
         if t["k"] == "call" and t["dest"]["l"] == 0 and not t["dest"]["p"]:
             ct = pv.call_term(bi)
             o = _classify(ct, bi, "term", fn, pv)
-            out.extend(_split_propagate(o, fn, pv) or [o])
+            out.extend(_split_propagate(o, fn, pv) or _expand_combinators(o, fn, pv) or [o])
     return out
 
 
-def _split_propagate(o, fn, pv):
+def _expand_combinators(o, fn, pv):
+    """an exit whose value is built with Option/Result combinators (`x.map(f).ok_or(e)`, `r.map_err(g)?`) is the
+    same as the `match` it abbreviates: one outcome per case, with the case's condition added"""
+    from . import combinators as cb
+    prog = fn.prog
+    if o["kind"] in ("call", "value") and cb.is_combinator(o["term"]):
+        cases = cb.reduce(prog, o["term"])
+        if len(cases) == 1 and cases[0][1] == o["term"]:
+            return None
+        res = []
+        for conds, v in cases:
+            o2 = _classify(v, o["bb"], o["idx"], fn, pv)
+            o2["conds"] = list(o2["conds"]) + list(conds)
+            res.append(o2)
+        return res
+    if o["kind"] == "propagate" and cb.is_combinator(o["inner"]):
+        cases = cb.reduce(prog, o["inner"])
+        if len(cases) == 1 and cases[0][1] == o["inner"]:
+            return None
+        res = []
+        for conds, v in cases:
+            k = cb._ctor(v)
+            if k and k[1] in ("Ok", "Some"):
+                continue
+            o2 = dict(o)
+            o2["conds"] = list(o["conds"]) + list(conds)
+            if k and k[1] == "Err":
+                o2.update({"kind": "err", "term": v, "inner": k[2]})
+            elif k and k[1] == "None":
+                o2.update({"kind": "none", "term": v, "inner": v})
+            else:
+                o2.update({"inner": v})
+            res.append(o2)
+        return res
+    return None
+
+
+def _split_propagate(o, fn, pv, depth=0):
     """`R?` where R has several definitions (the arms of a match that each build Ok(..), Err(..) or call something
-    - typically an inlined helper): one outcome per arm, located at the arm; Ok arms are no rejection"""
-    if o["kind"] != "propagate" or o["inner"][0] != "phi":
+    - typically an inlined helper): one outcome per arm, located at the arm; Ok arms are no rejection; an arm that
+    is itself the early return of an inner `?` (the helper used `?`) is expanded the same way"""
+    if o["kind"] != "propagate" or o["inner"][0] != "phi" or depth > 4:
         return None
     a = o["term"][2][0]
     try:
@@ -144,17 +191,22 @@ def _split_propagate(o, fn, pv):
     bt = fn.blocks[site[1]]["term"]
     res = []
     for term, dbb, payload in _def_stmts(pv, bt["args"][0], site[1], "term"):
+        line = fn.blocks[dbb]["term"].get("line")
         if term[0] == "aggr" and term[1] == "core::result::Result":
             if term[2] == "Ok":
                 continue
             res.append({"kind": "err", "term": term, "inner": term[3][0][1] if term[3] else None, "bb": dbb, "idx": "term",
-                        "conds": conditions(fn, pv, dbb), "line": fn.blocks[dbb]["term"].get("line"), "via": o["bb"]})
+                        "conds": conditions(fn, pv, dbb), "line": line, "via": o["bb"]})
+        elif is_call(term, FROM_RESIDUAL):
+            o2 = _classify(term, dbb, "term", fn, pv)
+            o2["via"] = o["bb"]
+            res.extend(_split_propagate(o2, fn, pv, depth + 1) or [o2])
         elif is_call(term) and always_err_fn(fn.prog, term[1]):
             res.append({"kind": "call", "term": term, "inner": term, "bb": dbb, "idx": "term",
-                        "conds": conditions(fn, pv, dbb), "line": fn.blocks[dbb]["term"].get("line"), "via": o["bb"]})
+                        "conds": conditions(fn, pv, dbb), "line": line, "via": o["bb"]})
         elif is_call(term):
             res.append({"kind": "propagate", "term": o["term"], "inner": term, "bb": dbb, "idx": "term",
-                        "conds": conditions(fn, pv, dbb), "line": fn.blocks[dbb]["term"].get("line"), "via": o["bb"]})
+                        "conds": conditions(fn, pv, dbb), "line": line, "via": o["bb"]})
         else:
             return None
     return res
@@ -195,6 +247,8 @@ def try_sites(fn, pv):
 def cond_variants(prog, pv, c):
     """for a condition on an enum discriminant: (subject term, set of variant names the condition allows)"""
     op, kind, v = c
+    if kind == "variant":
+        return op, set(v)      # produced by combinators.reduce: the subject term IS of that variant
     if op[0] != "discr":
         return None
     adt = pv.discr_adt.get(op)
